@@ -175,6 +175,11 @@ def run_impl(case, outcome):
         cb = pending[i]
         if ncb != npending and i == 0:
             cb = not cb            # callbacks left over (or missing): force a mismatch on the first wait
+        npoll = sum(1 for x in case["waits"] if x["polling"])
+        if npoll > 1 and w["polling"]:
+            # several polling waits: the sends cannot be attributed; each wait is judged without them and the merged
+            # send times are judged once (queries `wait union` / `spec waitunion` below)
+            w = dict(w, polling=False)
         mine = sends if w["polling"] else []
         obs = "%s sends %s cb %s" % (out, ",".join(str(x) for x in mine), enc_bool(cb))
         outcome.count("outcome:" + out.split(" ")[0])
@@ -186,6 +191,13 @@ def run_impl(case, outcome):
                                                        " ".join(str(x) for x in mine) + (" " if mine else "") + enc_bool(cb)),
                         "True" if out[0] in "PET" and "late" not in out else "bad-outcome:" + out, "oracle",
                         "first match or timeout, never both, never neither; polling before completion only; no callback left"))
+    if sum(1 for x in case["waits"] if x["polling"]) > 1:
+        cfgs = "%d %s" % (len(case["waits"]), " ".join(enc_cfg(x) for x in case["waits"]))
+        got = ",".join(str(x) for x in sends)
+        qs.append(Query("wait union %s %s %d" % (cfgs, batches, case["horizon"]), got, "corr"))
+        qs.append(Query("spec waitunion %s %s %d" % (cfgs, batches, case["horizon"]), got, "oracle",
+                        "concurrent waits are not independent: the getProperties sent are not the merge of each wait's own polling"))
+        outcome.count("concurrent-polling-waits")
     return qs
 
 
@@ -224,7 +236,7 @@ def gen_cases(rng, tier):
         nw = rng.choice([1, 1, 2, 3])
         waits = []
         for i in range(nw):
-            waits.append({"timeout": timeout if i == 0 else rng.choice([None, 2, 5, 8]), "polling": i == 0 and rng.random() < 0.6,
+            waits.append({"timeout": timeout if i == 0 else rng.choice([None, 2, 5, 8]), "polling": rng.random() < 0.6,
                           "delay": rng.randint(1, 4), "interval": rng.randint(1, 3)})
         waits = [w for w in waits if w["timeout"] is None or all(t != w["timeout"] for t in times)] or waits[:1]
         if any(w["timeout"] is not None and w["timeout"] in times for w in waits):
@@ -236,3 +248,12 @@ def gen_cases(rng, tier):
             yield {"op": "wait", "kind": kind, "evkind": evkind, "horizon": H, "batches": [[t, [True]], [t + 2, [True] if kind == "check" and evkind == "value" else [False, True]]],
                    "waits": [{"timeout": None, "polling": False, "delay": 1, "interval": 1}, {"timeout": 8, "polling": True, "delay": 1, "interval": 1},
                              {"timeout": None, "polling": False, "delay": 1, "interval": 1}]}
+    # (4) concurrent polling waits on the same property with different phases, one completing (or timing out) before the other
+    for kind, evkind in kinds:
+        for t1, t2 in ((2, 6), (3, 8), (1, 9)):
+            for second in ([False, True], [True]):
+                if not realizable(kind, evkind, [True] + second):
+                    continue
+                yield {"op": "wait", "kind": kind, "evkind": evkind, "horizon": H, "batches": [[t1, [True]], [t2, second]],
+                       "waits": [{"timeout": None, "polling": True, "delay": 1, "interval": 2}, {"timeout": t2 + 1 if t2 < 9 else None, "polling": True, "delay": 2, "interval": 1},
+                                 {"timeout": 1 if t1 > 1 else 4, "polling": True, "delay": 1, "interval": 1}]}
